@@ -24,7 +24,13 @@ Record ncase := mkNCase {
      that height, whether that filter header could be read *)
   n_samples : list (Z * Z * Z * bool);
   n_valid : list (Z * Z * Z);
-  n_converged : bool
+  n_converged : bool;
+  (* some misbehaving node never answers getheaders *)
+  n_silent_hdr : bool;
+  (* block-header tip height at the last sample *)
+  n_final_hdr_tip : Z;
+  (* the honest node is reported banned at the last sample *)
+  n_honest_banned : bool
 }.
 
 Definition cp_interval := 1000.
@@ -51,11 +57,29 @@ Definition has_f15 (c : ncase) : bool :=
 Definition has_unprovable_liar (c : ncase) : bool :=
   existsb (fun fl => let '(flags, _) := fl in bit flags 2 && bit flags 4 && bit flags 8) (n_filter_lies c).
 
+(* F-C04-2 "silent sync peer": a sync peer that never answers getheaders but
+   keeps announcing blocks is never replaced: every announcement makes the
+   client send it another getheaders, which moves btcd's stall deadline for
+   the headers answer (90 s) forward again, and neutrino has no stall
+   detection of its own; header sync does not even start although the honest
+   peer is connected.  Visible when the honest chain keeps growing. *)
+Definition has_silent_sync (c : ncase) : bool :=
+  n_silent_hdr c && n_growing c && (n_final_hdr_tip c <? n_chain_len c).
+
+(* some node lies in the cfheaders it serves *)
+Definition has_cfheaders_liar (c : ncase) : bool :=
+  existsb (fun fl => let '(flags, _) := fl in bit flags 2) (n_filter_lies c).
+
 Definition sample_safe (valid : list (Z * Z * Z)) (s : Z * Z * Z * bool) : bool :=
   let '(h, hash, fhdr, rd) := s in
   (0 <=? h)
   && existsb (fun v => let '(vh, vhash, _) := v in (vh =? h) && (vhash =? hash)) valid
   && (negb rd || existsb (fun v => let '(vh, _, vf) := v in (vh =? h) && (vf =? fhdr)) valid).
+
+(* the block reported is on a valid chain; only the filter header is wrong *)
+Definition block_safe (valid : list (Z * Z * Z)) (s : Z * Z * Z * bool) : bool :=
+  let '(h, hash, _, _) := s in
+  (0 <=? h) && existsb (fun v => let '(vh, vhash, _) := v in (vh =? h) && (vhash =? hash)) valid.
 
 Fixpoint first_unsafe (valid : list (Z * Z * Z)) (i : Z) (l : list (Z * Z * Z * bool)) : option Z :=
   match l with
@@ -70,19 +94,32 @@ Definition safe (c : ncase) : bool :=
 Definition holds (c : ncase) : bool := safe c && n_converged c.
 
 (* rows (case id, kind 2, step, tag): step = index of the first unsafe sample,
-   or the number of samples when only convergence failed; tag 15 when the
-   scenario contains the known root cause F15 and ONLY convergence failed;
-   tag 22 when the honest chain does not grow after the scenario's events
-   (the client asks a non-sync peer for headers only when that peer announces
-   a block: without a further announcement it can stay on a lighter valid
-   chain it finished syncing from another peer). *)
+   or the number of samples when only convergence failed.
+   Unsafe sample: tag 25 (F-C04-3) when the reported block IS on a valid chain
+   and only its filter header is false, a node lies in its cfheaders, and the
+   honest node ended up banned: a filter-header round that was answered by
+   lying peers only (the honest peer not yet usable or late) commits their
+   value; from then on the honest peer names another previous filter header
+   than the stored tip and is banned for it.  Any other unsafe sample: tag 0.
+   Only convergence failed: tag 15 when the scenario contains the root cause
+   F15, 23 for F30 (both repaired: reported as violations again), 24 for the
+   silent sync peer, 22 when the honest chain does not grow after the
+   scenario's events (the client asks a non-sync peer for headers only when
+   that peer announces a block: without a further announcement it can stay
+   on a lighter valid chain it finished syncing from another peer). *)
 Definition verdict (ic : Z * ncase) : list (Z * Z * Z * Z) :=
   let '(id, c) := ic in
   match first_unsafe (n_valid c) 0 (n_samples c) with
-  | Some i => [(id, 2, i, 0)]
+  | Some i =>
+      let fonly := match nth_error (n_samples c) (Z.to_nat i) with
+                   | Some s => block_safe (n_valid c) s
+                   | None => false
+                   end in
+      [(id, 2, i, if fonly && has_cfheaders_liar c && n_honest_banned c then 25 else 0)]
   | None => if n_converged c then []
             else [(id, 2, Z.of_nat (length (n_samples c)),
                    if has_f15 c then 15 else if has_unprovable_liar c then 23
+                   else if has_silent_sync c then 24
                    else if negb (n_growing c) then 22 else 0)]
   end.
 
